@@ -392,7 +392,7 @@ pub fn string_slice(
     let len = s.len() as i64;
 
     let start_arg = args.first().map(|v| v.to_number() as i64).unwrap_or(0);
-    let end_arg = args.get(1).map(|v| v.to_number() as i64).unwrap_or(len);
+    let end_arg = super::given(args, 1).map(|v| v.to_number() as i64).unwrap_or(len);
 
     let start = if start_arg < 0 {
         (len + start_arg).max(0)
@@ -436,8 +436,7 @@ pub fn string_substring(
         })
         .unwrap_or(0);
 
-    let end = args
-        .get(1)
+    let end = super::given(args, 1)
         .map(|v| {
             let n = v.to_number();
             if n.is_nan() { 0 } else { (n as usize).min(len) }
@@ -489,8 +488,7 @@ pub fn string_substr(
     }
 
     // Get length (default: rest of string)
-    let length = args
-        .get(1)
+    let length = super::given(args, 1)
         .map(|v| {
             let n = v.to_number();
             if n.is_nan() || n < 0.0 { 0 } else { n as usize }
@@ -850,7 +848,7 @@ pub fn string_pad_start(
 ) -> Result<Guarded, JsError> {
     let s = interp.to_js_string(&this);
     let target_length = args.first().map(|v| v.to_number() as usize).unwrap_or(0);
-    let pad_string = match args.get(1) {
+    let pad_string = match super::given(args, 1) {
         Some(v) => interp.to_js_string(v),
         None => interp.intern(" "),
     };
@@ -879,7 +877,7 @@ pub fn string_pad_end(
 ) -> Result<Guarded, JsError> {
     let s = interp.to_js_string(&this);
     let target_length = args.first().map(|v| v.to_number() as usize).unwrap_or(0);
-    let pad_string = match args.get(1) {
+    let pad_string = match super::given(args, 1) {
         Some(v) => interp.to_js_string(v),
         None => interp.intern(" "),
     };
